@@ -137,6 +137,26 @@ CHECKS = {
              'may be removed even if re-linked later (strict reading reported '
              'as known finding); a failing pack must leave everything '
              'unchanged'),
+    'C08': dict(
+        technique='stateless preemption-bounded exploration of real packer / '
+                  'committer / reader / undoer threads under a controlled '
+                  'scheduler, and exhaustive crash-point enumeration over the '
+                  'recorded I/O of every explored packer+writer schedule',
+        text='Nine harnesses over a FileStorage DB with three prepared '
+             'transactions (pack to a past time and to now; writer with two '
+             'commits; writer + reader; DB-level and storage-level readers; '
+             'second packer; undoer; two writers): every schedule with <= 2 '
+             '(3) preemptions, points at lock ops, recorded I/O ops and raw '
+             'reads beyond the committed end, plus a line-level pass over '
+             'FilePool and pack(). Readers are judged by the C02 interval '
+             'oracle, writers by the C03 chain oracle, the reopened file must '
+             'equal the live state and parse, nothing at or after T may be '
+             'lost, only the second concurrent pack may be refused. For every '
+             'schedule of packer+writer (bound 1) every op boundary after the '
+             'pack started is rebuilt as a disk image and reopened.',
+        design='4 (C08)',
+        note='crash model = prefix of issued file-system ops in issue order; '
+             'GIL semantics'),
     'C09': dict(
         technique='exhaustive enumeration of (history, data-file image, '
                   'index version / truncation / leftover files) triples on '
